@@ -35,7 +35,6 @@ import (
 
 	"tunnox-core/internal/cloud/models"
 	"tunnox-core/internal/cloud/repos"
-	cloudutils "tunnox-core/internal/cloud/utils"
 	"tunnox-core/internal/constants"
 	"tunnox-core/internal/core/idgen"
 	"tunnox-core/internal/core/storage"
@@ -69,6 +68,7 @@ type c06World struct {
 	clock        atomic.Int64    // logical clock: one tick per call / return event
 	expiredAt    int64           // logical instant after which the code is certainly expired (0 = never)
 	foreign      map[string]bool // target addresses of other codes deliberately present in the store
+	postRead     atomic.Value    // func(op, key string): post-read gate (only with c06Opts.PostRead)
 }
 
 var c06WorldSeq atomic.Int64
@@ -99,7 +99,25 @@ type c06Opts struct {
 	Backend      string
 	Nodes        int
 	TTL          time.Duration
-	TargetClient int64 // 0 = c06TargetClient
+	TargetClient int64  // 0 = c06TargetClient
+	Target       string // "" = a unique tcp://10.66.x.y:port
+	// PostRead: the shared store additionally has a gate AFTER every Get, i.e. a read
+	// whose value has been taken from the store can be held before it is delivered
+	PostRead bool
+}
+
+// c06PostGated adds a second gate to reads: after the value was read, before it is returned.
+type c06PostGated struct {
+	*vk.Gated
+	w *c06World
+}
+
+func (p *c06PostGated) Get(key string) (any, error) {
+	v, err := p.Gated.Get(key)
+	if f, _ := p.w.postRead.Load().(func(string, string)); f != nil {
+		f("Get", key)
+	}
+	return v, err
 }
 
 func c06NewWorldOpt(t testing.TB, o c06Opts) *c06World {
@@ -144,6 +162,9 @@ func c06NewWorldOpt(t testing.TB, o c06Opts) *c06World {
 	w.gates = append(w.gates, gShared)
 	for i := 0; i < nNodes; i++ {
 		var st storage.Storage = gShared
+		if o.PostRead {
+			st = &c06PostGated{Gated: gShared, w: w}
+		}
 		if backend == "hybrid" || backend == "hybrid-redis" {
 			// a node of a clustered deployment: own local cache, the cluster's shared cache, no database
 			local := memory.New(ctx)
@@ -164,6 +185,9 @@ func c06NewWorldOpt(t testing.TB, o c06Opts) *c06World {
 	n := c06WorldSeq.Add(1)
 	// unique target address per code: attribution of mappings to the code is exact
 	w.target = fmt.Sprintf("tcp://10.66.%d.%d:%d", (n>>8)&0xff, n&0xff, 20000+int(n%40000))
+	if o.Target != "" {
+		w.target = o.Target
+	}
 	w.createCall = time.Now()
 	code, err := w.nodes[0].svc.CreateConnectionCode(&CreateConnectionCodeRequest{
 		TargetClientID:  w.targetClient,
@@ -233,6 +257,13 @@ func (w *c06World) do(c *c06Call) {
 			c.MappingID = m.ID
 			cp := *m
 			c.ret = &cp
+		}
+	case "lookup":
+		_, err := w.nodes[c.Node].svc.GetConnectionCode(w.code.Code)
+		if err != nil {
+			c.Err = c06ShortErr(err)
+		} else {
+			c.OK = true
 		}
 	case "revoke":
 		err := w.nodes[c.Node].svc.RevokeConnectionCode(w.code.Code, "c06-revoker")
@@ -407,10 +438,11 @@ func c06Judge(w *c06World, calls []*c06Call, sc *c06Scan, run *vk.Run) []c06Find
 		}
 	}
 	// (3)
-	host, port, proto, perr := cloudutils.ParseTargetAddress(w.target)
+	// the monitor's own reading of the address fixed at generation (decimal port), not the parser under test
+	host, port, proto, refOK := c06RefAddr(w.target)
 	content := func(where string, m *models.PortMapping, s *c06Call) {
 		if m.TargetClientID != w.targetClient || m.TargetAddress != w.target ||
-			(perr == nil && (m.TargetHost != host || m.TargetPort != port || string(m.Protocol) != proto)) {
+			(refOK && (m.TargetHost != host || m.TargetPort != port || string(m.Protocol) != proto)) {
 			add("C06:wrong-target|"+where, fmt.Sprintf("mapping %s targets client %d %q (%s:%d/%s), code fixes client %d %q", m.ID, m.TargetClientID, m.TargetAddress, m.TargetHost, m.TargetPort, m.Protocol, w.targetClient, w.target))
 		}
 		if s != nil {
@@ -419,6 +451,8 @@ func c06Judge(w *c06World, calls []*c06Call, sc *c06Scan, run *vk.Run) []c06Find
 			}
 			if m.ListenAddress != s.Listen {
 				add("C06:wrong-listen-address|"+where, fmt.Sprintf("mapping %s listen address %q, requested %q", m.ID, m.ListenAddress, s.Listen))
+			} else if _, lp, _, ok := c06RefAddr(s.Listen); ok && m.SourcePort != lp {
+				add("C06:wrong-listen-port|"+where, fmt.Sprintf("mapping %s listens on port %d, the activator asked for %q (decimal %d)", m.ID, m.SourcePort, s.Listen, lp))
 			}
 		}
 	}
@@ -498,6 +532,39 @@ func c06Judge(w *c06World, calls []*c06Call, sc *c06Scan, run *vk.Run) []c06Find
 	return out
 }
 
+var c06PortRe = regexp.MustCompile(`^\+?[0-9]{1,9}$`)
+
+// c06RefAddr is the monitor's reference reading of "[scheme://]host:port": the port is
+// the DECIMAL number written there (leading zeros and a plus sign do not change a
+// decimal number). ok=false: the spelling has no unambiguous decimal reading (or is not
+// of this shape) and nothing is demanded about host/port.
+func c06RefAddr(addr string) (host string, port int, proto string, ok bool) {
+	proto = "tcp"
+	rest := addr
+	if i := strings.Index(addr, "://"); i >= 0 {
+		proto = strings.ToLower(addr[:i])
+		rest = addr[i+3:]
+	}
+	i := strings.LastIndexByte(rest, ':')
+	if i <= 0 {
+		return "", 0, "", false
+	}
+	host, ps := rest[:i], rest[i+1:]
+	if strings.HasPrefix(host, "[") && strings.HasSuffix(host, "]") {
+		host = host[1 : len(host)-1]
+	} else if strings.ContainsAny(host, ":[]/@ ") {
+		return "", 0, "", false
+	}
+	if !c06PortRe.MatchString(ps) {
+		return "", 0, "", false
+	}
+	n, err := strconv.ParseInt(strings.TrimPrefix(ps, "+"), 10, 64)
+	if err != nil {
+		return "", 0, "", false
+	}
+	return host, int(n), proto, true
+}
+
 func c06Cap(n int) int {
 	if n > 3 {
 		return 3
@@ -521,6 +588,8 @@ type c06Scenario struct {
 	Nodes   int         `json:"nodes"`
 	Threads []c06Thread `json:"threads"`
 	Backend string      `json:"backend,omitempty"`
+	// PostRead: reads of the shared store have a second gate after the value was taken
+	PostRead bool `json:"post_read_gate,omitempty"`
 }
 
 // the cross-node scenarios again with one hybrid.Storage per node ("hy-" prefix)
@@ -534,13 +603,13 @@ func init() {
 }
 
 var c06Scenarios = map[string]c06Scenario{
-	"2act-same-node":   {"2act-same-node", 1, []c06Thread{{"A", "activate", 0, 30000001}, {"B", "activate", 0, 30000002}}, ""},
-	"2act-cross-node":  {"2act-cross-node", 2, []c06Thread{{"A", "activate", 0, 30000001}, {"B", "activate", 1, 30000002}}, ""},
-	"2act-same-client": {"2act-same-client", 2, []c06Thread{{"A", "activate", 0, 30000001}, {"B", "activate", 1, 30000001}}, ""},
-	"1act+revoke":      {"1act+revoke", 2, []c06Thread{{"A", "activate", 0, 30000001}, {"R", "revoke", 1, 0}}, ""},
-	"2act+revoke":      {"2act+revoke", 2, []c06Thread{{"A", "activate", 0, 30000001}, {"B", "activate", 1, 30000002}, {"R", "revoke", 0, 0}}, ""},
-	"1act":             {"1act", 1, []c06Thread{{"A", "activate", 0, 30000001}}, ""},
-	"3act":             {"3act", 2, []c06Thread{{"A", "activate", 0, 30000001}, {"B", "activate", 1, 30000002}, {"C", "activate", 0, 30000003}}, ""},
+	"2act-same-node":   {Kind: "2act-same-node", Nodes: 1, Threads: []c06Thread{{"A", "activate", 0, 30000001}, {"B", "activate", 0, 30000002}}},
+	"2act-cross-node":  {Kind: "2act-cross-node", Nodes: 2, Threads: []c06Thread{{"A", "activate", 0, 30000001}, {"B", "activate", 1, 30000002}}},
+	"2act-same-client": {Kind: "2act-same-client", Nodes: 2, Threads: []c06Thread{{"A", "activate", 0, 30000001}, {"B", "activate", 1, 30000001}}},
+	"1act+revoke":      {Kind: "1act+revoke", Nodes: 2, Threads: []c06Thread{{"A", "activate", 0, 30000001}, {"R", "revoke", 1, 0}}},
+	"2act+revoke":      {Kind: "2act+revoke", Nodes: 2, Threads: []c06Thread{{"A", "activate", 0, 30000001}, {"B", "activate", 1, 30000002}, {"R", "revoke", 0, 0}}},
+	"1act":             {Kind: "1act", Nodes: 1, Threads: []c06Thread{{"A", "activate", 0, 30000001}}},
+	"3act":             {Kind: "3act", Nodes: 2, Threads: []c06Thread{{"A", "activate", 0, 30000001}, {"B", "activate", 1, 30000002}, {"C", "activate", 0, 30000003}}},
 }
 
 func newC06Rand(seed int64) *rand.Rand { return rand.New(rand.NewSource(seed)) }
@@ -628,7 +697,10 @@ type c06SchedResult struct {
 // the function to call after the schedule ended. failAt > 0: the failAt-th storage
 // write (in schedule order, counted from the moment the threads start) fails.
 func c06RunScheduled(t testing.TB, run *vk.Run, sc c06Scenario, s *vk.Sched, failAt int, mode string) func(ok bool) {
-	w := c06NewWorldB(t, sc.Backend, sc.Nodes, 10*time.Minute)
+	w := c06NewWorldOpt(t, c06Opts{Backend: sc.Backend, Nodes: sc.Nodes, TTL: 10 * time.Minute, PostRead: sc.PostRead})
+	if sc.PostRead {
+		w.postRead.Store(func(op, key string) { s.Yield("mem.ret." + op + ":" + key) })
+	}
 	var writes atomic.Int64
 	var failedOp atomic.Value
 	w.setHook(func(tier, op, key string) error {
@@ -647,6 +719,9 @@ func c06RunScheduled(t testing.TB, run *vk.Run, sc c06Scenario, s *vk.Sched, fai
 		c := &c06Call{Thread: th.Name, Kind: th.Kind, Node: th.Node, Client: th.Client}
 		if th.Kind == "activate" {
 			c.Listen = fmt.Sprintf("0.0.0.0:%d", 7001+i)
+		}
+		if th.Kind == "probe" { // an activation attempt that is rejected for its malformed listen address
+			c.Kind, c.Listen = "activate", "no-port-here"
 		}
 		calls = append(calls, c)
 		wg.Add(1)
@@ -1544,4 +1619,195 @@ func TestVerifC06WideIDs(t *testing.T) {
 	run.Exhaustive(true)
 	run.Floor("wide_activations_ok", 150)
 	run.Floor("wide_activations_ok_id_above_2^53", 100)
+}
+
+// ---------------------------------------------------------------------------
+// monitor 7: a read whose value is already taken is delivered late (revoke acknowledged in between)
+// ---------------------------------------------------------------------------
+
+// c06HeldReadChooser drives: R (revoke) until it has read the record and stands before
+// its first write; L (a lookup of the same code) until its storage read has taken the
+// value but not yet delivered it; R to the end (revoke acknowledged); then A (activate)
+// for as long as it can run; then everybody else.
+type c06HeldReadChooser struct {
+	stage  int
+	window bool // L's read was held across the complete, acknowledged revoke
+}
+
+func (c *c06HeldReadChooser) Choose(enabled []string, points []string, cur int) int {
+	idx := func(name string) int {
+		for i, n := range enabled {
+			if n == name {
+				return i
+			}
+		}
+		return -1
+	}
+	codeRead := "ret.Get:" + constants.KeyPrefixRuntimeConnectionCodeByCode
+	for {
+		switch c.stage {
+		case 0:
+			i := idx("R")
+			if i >= 0 && !strings.Contains(points[i], ".Set:") && !strings.Contains(points[i], ".Delete:") {
+				return i
+			}
+			c.stage = 1
+		case 1:
+			i := idx("L")
+			if i >= 0 && !strings.Contains(points[i], codeRead) {
+				return i
+			}
+			if i >= 0 {
+				c.window = true
+			}
+			c.stage = 2
+		case 2:
+			if i := idx("R"); i >= 0 {
+				return i
+			}
+			c.stage = 3
+		case 3:
+			if i := idx("A"); i >= 0 {
+				return i
+			}
+			c.stage = 4
+		default:
+			return 0
+		}
+	}
+}
+
+func TestVerifC06HeldReads(t *testing.T) {
+	vk.Quiet()
+	run := vk.Start(t, "C06", "held-reads")
+	defer run.Finish()
+	run.Rule("storage reads are not instantaneous: the shared store has a second gate after every Get (value taken, not yet delivered). Directed schedule on one node: the revoker reads the code; a concurrent lookup of the same code (status query, or an activation attempt rejected for its listen address; same or other client) takes its value from the store and is held; the revoke writes and is acknowledged; only then an activation starts and runs as far as it can; then the held read is delivered. Oracle as everywhere: an activation that began after an acknowledged revoke returns no mapping, nothing is left in the store. Plus seeded random schedules over the same three threads. distinct = (lookup kind, clients, node placement) with the window reached")
+	c06Replay(t, run, "held-reads")
+	type variant struct {
+		lkind   string
+		lclient int64
+		lnode   int
+		anode   int
+	}
+	var vars []variant
+	for _, lk := range []string{"lookup", "probe"} {
+		for _, lc := range []int64{30000001, 30000002} {
+			for _, place := range [][2]int{{0, 0}, {1, 0}, {0, 1}} {
+				vars = append(vars, variant{lk, lc, place[0], place[1]})
+			}
+		}
+	}
+	for _, v := range vars {
+		sc := c06Scenario{Kind: fmt.Sprintf("held-read|%s|lclient=%d|lnode=%d|anode=%d", v.lkind, v.lclient, v.lnode, v.anode), Nodes: 2, PostRead: true,
+			Threads: []c06Thread{{"R", "revoke", 0, 0}, {"L", v.lkind, v.lnode, v.lclient}, {"A", "activate", v.anode, 30000001}}}
+		c06Scenarios[sc.Kind] = sc
+		run.Case("held-read", sc)
+		ch := &c06HeldReadChooser{}
+		s := vk.NewSched(ch)
+		after := c06RunScheduled(t, run, sc, s, 0, "directed")
+		ok := s.Run(400)
+		s.Stop()
+		after(ok)
+		if ch.window {
+			run.Count("window_read_held_across_acknowledged_revoke", 1)
+			run.Distinct(sc.Kind)
+		}
+	}
+	// seeded random schedules over the same threads (post-read gates make stale deliveries schedulable)
+	r := run.Rand("held-reads-random")
+	n := run.Pick(120, 4000)
+	for i := 0; i < n; i++ {
+		v := vars[r.Intn(len(vars))]
+		sc := c06Scenarios[fmt.Sprintf("held-read|%s|lclient=%d|lnode=%d|anode=%d", v.lkind, v.lclient, v.lnode, v.anode)]
+		seed := r.Int63()
+		run.Case("held-read-random", seed)
+		s := vk.NewSched(vk.RandomChooser{R: newC06Rand(seed)})
+		after := c06RunScheduled(t, run, sc, s, 0, "random")
+		ok := s.Run(400)
+		s.Stop()
+		after(ok)
+		run.Count("random_runs", 1)
+	}
+	run.Floor("window_read_held_across_acknowledged_revoke", int64(len(vars)))
+	if run.Counter("watchdog") > 0 {
+		run.Floor("watchdog_free", 1)
+	}
+}
+
+// ---------------------------------------------------------------------------
+// monitor 8: spellings of the target / listen address
+// ---------------------------------------------------------------------------
+
+func TestVerifC06Addresses(t *testing.T) {
+	vk.Quiet()
+	run := vk.Start(t, "C06", "addresses")
+	defer run.Finish()
+	run.Rule("the code's target address and the activator's listen address are written with port spellings {100, 0100, 0053, 0777, 00080, 08, 09, +80, ' 80', '80 ', 0x50, 0o17, 8_0, 0, 65535, 65536, 99999, -1, empty} on hosts {IPv4, bracketed IPv6, name} and schemes {tcp, udp, TCP, none}; one activation, then a second one by another client; either the activation is refused and nothing is stored, or the mapping's target host/port/protocol and listen port equal the monitor's own decimal reading of the address (spellings without an unambiguous decimal reading are only counted); distinct = (which address, spelling)")
+	ports := []string{"100", "0100", "0053", "0777", "00080", "08", "09", "+80", " 80", "80 ", "0x50", "0o17", "8_0", "0", "65535", "65536", "99999", "-1", ""}
+	type acase struct {
+		which, target, listen, class string
+	}
+	var cases []acase
+	for _, p := range ports {
+		for _, h := range []string{"10.1.2.3", "[fd00::7]", "db.internal"} {
+			cases = append(cases, acase{"target", "tcp://" + h + ":" + p, "0.0.0.0:7001", "target|port=" + p})
+		}
+		for _, h := range []string{"0.0.0.0", "[::]", "127.0.0.1"} {
+			cases = append(cases, acase{"listen", "tcp://10.1.2.3:5432", h + ":" + p, "listen|port=" + p})
+		}
+	}
+	for _, p := range []string{"0100", "0053", "443"} {
+		cases = append(cases, acase{"target", "udp://10.1.2.3:" + p, "0.0.0.0:7001", "target|udp|port=" + p},
+			acase{"target", "TCP://10.1.2.3:" + p, "0.0.0.0:7001", "target|TCP|port=" + p},
+			acase{"target", "10.1.2.3:" + p, "0.0.0.0:7001", "target|noscheme|port=" + p})
+	}
+	behaviour := map[string]string{}
+	for _, cs := range cases {
+		run.Case("addr|"+cs.class, cs)
+		w := c06NewWorldOpt(t, c06Opts{Backend: "memory", Nodes: 2, TTL: 10 * time.Minute, Target: cs.target})
+		a := &c06Call{Thread: "A", Kind: "activate", Node: 0, Client: 30000001, Listen: cs.listen}
+		b := &c06Call{Thread: "late", Kind: "activate", Node: 1, Client: 30000002, Listen: "0.0.0.0:7002"}
+		calls := []*c06Call{a}
+		w.do(a)
+		if a.OK {
+			w.do(b)
+			calls = append(calls, b)
+		}
+		run.Eval(1)
+		run.Distinct(cs.class)
+		addr := cs.target
+		if cs.which == "listen" {
+			addr = cs.listen
+		}
+		_, rp, _, refOK := c06RefAddr(addr)
+		switch {
+		case a.OK && refOK:
+			run.Count("addr_accepted_and_judged", 1)
+			if strings.HasPrefix(addr[strings.LastIndexByte(addr, ':')+1:], "0") && rp > 0 {
+				run.Count("addr_accepted_leading_zero_port_judged", 1)
+			}
+			behaviour[cs.class] = "accepted"
+		case a.OK:
+			run.Count("addr_accepted_without_decimal_reading_not_judged", 1)
+			behaviour[cs.class] = "accepted (no decimal reading: not judged)"
+		default:
+			run.Count("addr_refused", 1)
+			behaviour[cs.class] = "refused"
+		}
+		scan := w.scan()
+		for _, f := range c06Judge(w, calls, scan, run) {
+			var maps []string
+			for id, m := range scan.Mains {
+				maps = append(maps, fmt.Sprintf("%s listen_client=%d source_port=%d target=%s -> %s:%d/%s", id, m.ListenClientID, m.SourcePort, m.TargetAddress, m.TargetHost, m.TargetPort, m.Protocol))
+			}
+			sort.Strings(maps)
+			run.Violation(f.Sig+"|address-spelling", map[string]any{"case": cs.class, "target_address": cs.target, "listen_address": cs.listen, "calls": calls, "mapping_records": maps, "reason": f.Reason})
+		}
+		w.close()
+	}
+	run.Observe("behaviour_per_spelling", behaviour)
+	run.Exhaustive(true)
+	run.Floor("addr_accepted_and_judged", 30)
+	run.Floor("addr_accepted_leading_zero_port_judged", 15)
+	run.Floor("addr_refused", 20)
 }
